@@ -194,3 +194,8 @@ func SplitRecords(b []byte) (recs []Record, ok bool) {
 
 // EqualBytes is bytes.Equal treating nil and empty alike.
 func EqualBytes(a, b []byte) bool { return bytes.Equal(a, b) }
+
+// SpecScalar returns the canonical wire payload (no tag) of one scalar value.
+func SpecScalar(fd protoreflect.FieldDescriptor, v protoreflect.Value) []byte {
+	return specScalar(nil, fd, v)
+}
